@@ -28,7 +28,7 @@ InitSt(r) == [dir |-> r.init.dir, dest |-> r.init.orig,
 LsOf(j) == [dir |-> j.dir, d |-> j.d, tmp |-> {<<j.tmp[k][1], j.tmp[k][2]>> : k \in 1..Len(j.tmp)}]
 \* Visible(st) in a JSON-printable shape
 Show(st) == [dir |-> st.dir, d |-> st.dest,
-             tmp |-> [k \in DOMAIN st.tmp |-> st.tmp[k].data],
+             tmp |-> {<<k, st.tmp[k].data>> : k \in DOMAIN st.tmp},
              pc |-> [w \in DOMAIN st.wr |-> st.wr[w].pc]]
 
 Bad(c, k, st, w) == [ok |-> FALSE, clause |-> c,
@@ -62,13 +62,8 @@ Walk(st0, evs, orig) ==
     ELSE IF n = 0 \/ evs[n].op # "post" THEN Bad("post.missing", n, r.st, "")
     ELSE Good
 
-\* the run followed the schedule TLC chose (n is in units of r.unit bytes in the schedule)
-Same(p, e, u) == p.w = e.w /\ p.op = e.op /\ p.res = e.res /\ p.i = e.i /\ (p.op \in {"bcall", "write"} => p.n * u = e.n)
-Followed(r) == /\ Len(r.plan) + 1 = Len(r.ev)
-               /\ \A k \in 1..Len(r.plan) : Same(r.plan[k], r.ev[k], r.unit)
-
-\* (a run that is accepted but did not follow its schedule exactly - the io stack retried a write,
-\* say - is still a behaviour of the design; Followed is only used for statistics)
+\* (a run that is accepted but did not follow its schedule r.plan exactly - the io stack retried a
+\* write, say - is still a behaviour of the design; how many runs followed exactly is only counted)
 Verdict(r) == Walk(InitSt(r), r.ev, r.init.orig)
 
 Init == i = 0
